@@ -6,6 +6,7 @@ import IslaVerif.Driver.C16
 import IslaVerif.Driver.C20
 import IslaVerif.Driver.C19
 import IslaVerif.Driver.C17
+import IslaVerif.Driver.C15
 namespace IslaVerif.Driver
 open IslaVerif
 
@@ -18,6 +19,7 @@ def dispatch : Sexp → Sexp
   | .list (.atom "c20" :: rest) => C20.handle rest
   | .list (.atom "c19" :: rest) => C19.handle rest
   | .list (.atom "c17" :: rest) => C17.handle rest
+  | .list (.atom "c15" :: rest) => C15.handle rest
   | _ => .atom "bad-request"
 
 end IslaVerif.Driver
